@@ -214,42 +214,6 @@ Section MulRec.
     (((al_lo, al_hi), ah), rlow || rlow2 || rmid || rmid2 || rhigh).
 End MulRec.
 
-(* the three mutually dependent functions packed in one Fixpoint over k *)
-Record mulpack (k : nat) := {
-  mp_lmul : ru k -> ru k -> ru k * ru k;
-  mp_laddmul : ru k -> ru k -> ru k -> (ru k * ru k) * bool;
-  mp_laddmul2 : ru k -> ru k -> ru (S k) -> (ru k * ru k) * bool }.
-Arguments mp_lmul {k}. Arguments mp_laddmul {k}. Arguments mp_laddmul2 {k}.
-
-Definition lmul0 (b c : Z) : Z * Z := let '(h, l) := umul_ppmm b c in (l, h).
-Definition laddmul0 (b c d : Z) : (Z * Z) * bool :=
-  let '(h, l) := umul_ppmm b c in
-  let '(h', l') := add_ssaaaa h l 0 d in
-  ((l', h'), (h' =? 0) && (l' <? d)).
-Definition laddmul20 (b c : Z) (d : Z * Z) : (Z * Z) * bool :=
-  let '(h, l) := umul_ppmm b c in
-  let '(h', l') := add_ssaaaa h l (snd d) (fst d) in
-  ((l', h'), (h' <? snd d) || ((h' =? snd d) && (l' <? fst d))).
-Definition mulpack0 : mulpack 0 := Build_mulpack 0 lmul0 laddmul0 laddmul20.
-
-(* `naive` selects lmul_naive at this level: the code's lmul<K> tests K < __RECINT_THRESHOLD_KARA;
-   inside lmul_naive/laddmul the sub-products call lmul_naive/lmul as written in the code:
-   lmul_naive calls lmul_naive, laddmul calls lmul.  Below the threshold both coincide, and
-   laddmul is only reached from lmul_naive, i.e. below the threshold. *)
-Fixpoint mulnaive (k : nat) : mulpack k :=
-  match k return mulpack k with
-  | O => mulpack0
-  | S k' =>
-      let p := mulnaive k' in
-      {| mp_lmul := lmul_naive_step k' (mp_lmul p) (mp_laddmul p) (mp_laddmul2 p);
-         mp_laddmul := laddmul_step k' (mp_lmul p) (mp_laddmul p) (mp_laddmul2 p);
-         mp_laddmul2 := laddmul2_step k' (mp_lmul p) (mp_laddmul2 p) |}
-  end.
-
-Definition lmul_naive (k : nat) := mp_lmul (mulnaive k).
-Definition laddmul (k : nat) := mp_laddmul (mulnaive k).
-Definition laddmul2 (k : nat) := mp_laddmul2 (mulnaive k).
-
 (* lmul_kara(ah, al, b, c) for K > 6, given lmul on the half size *)
 Definition lmul_kara_step (k' : nat) (lmul_rec : ru k' -> ru k' -> ru k' * ru k')
            (b c : ru (S k')) : ru (S k') * ru (S k') :=
@@ -272,17 +236,49 @@ Definition lmul_kara_step (k' : nat) (lmul_rec : ru k' -> ru k' -> ru k' * ru k'
   let ah := if rt6 || r then (fst ah, fst (add_w k' (snd ah) (b2z rt6 + b2z r))) else ah in
   (al, ah).
 
-(* lmul<K>: K < threshold -> naive, else kara (recursing through lmul).  thr is the value of
-   __RECINT_THRESHOLD_KARA minus 6, read from the source by the check. *)
-Fixpoint lmul (thr : nat) (k : nat) : ru k -> ru k -> ru k * ru k :=
-  match k return ru k -> ru k -> ru k * ru k with
-  | O => lmul_naive 0
-  | S k' => if Nat.ltb (S k') thr then lmul_naive (S k') else lmul_kara_step k' (lmul thr k')
+(* the four mutually dependent functions packed in one Fixpoint over k.  As in the code:
+   lmul_naive<K> calls lmul_naive<K-1>, laddmul<K-1> (both d sizes);
+   laddmul<K> (both d sizes) calls lmul<K-1> and laddmul<K-1>;
+   lmul<K> is lmul_naive<K> when K < __RECINT_THRESHOLD_KARA, else lmul_kara<K>, which calls lmul<K-1>.
+   thr is the value of __RECINT_THRESHOLD_KARA minus 6, read from the source by the check. *)
+Record mulpack (k : nat) := {
+  mp_naive : ru k -> ru k -> ru k * ru k;
+  mp_lmul : ru k -> ru k -> ru k * ru k;
+  mp_laddmul : ru k -> ru k -> ru k -> (ru k * ru k) * bool;
+  mp_laddmul2 : ru k -> ru k -> ru (S k) -> (ru k * ru k) * bool }.
+Arguments mp_naive {k}. Arguments mp_lmul {k}. Arguments mp_laddmul {k}. Arguments mp_laddmul2 {k}.
+
+Definition lmul0 (b c : Z) : Z * Z := let '(h, l) := umul_ppmm b c in (l, h).
+Definition laddmul0 (b c d : Z) : (Z * Z) * bool :=
+  let '(h, l) := umul_ppmm b c in
+  let '(h', l') := add_ssaaaa h l 0 d in
+  ((l', h'), (h' =? 0) && (l' <? d)).
+Definition laddmul20 (b c : Z) (d : Z * Z) : (Z * Z) * bool :=
+  let '(h, l) := umul_ppmm b c in
+  let '(h', l') := add_ssaaaa h l (snd d) (fst d) in
+  ((l', h'), (h' <? snd d) || ((h' =? snd d) && (l' <? fst d))).
+Definition mulpack0 : mulpack 0 := Build_mulpack 0 lmul0 lmul0 laddmul0 laddmul20.
+
+Fixpoint mulrec (thr : nat) (k : nat) : mulpack k :=
+  match k return mulpack k with
+  | O => mulpack0
+  | S k' =>
+      let p := mulrec thr k' in
+      let naive := lmul_naive_step k' (mp_naive p) (mp_laddmul p) (mp_laddmul2 p) in
+      {| mp_naive := naive;
+         mp_lmul := if Nat.ltb (S k') thr then naive else lmul_kara_step k' (mp_lmul p);
+         mp_laddmul := laddmul_step k' (mp_lmul p) (mp_laddmul p) (mp_laddmul2 p);
+         mp_laddmul2 := laddmul2_step k' (mp_lmul p) (mp_laddmul2 p) |}
   end.
+
+Definition lmul_naive (thr k : nat) := mp_naive (mulrec thr k).
+Definition lmul (thr k : nat) := mp_lmul (mulrec thr k).
+Definition laddmul (thr k : nat) := mp_laddmul (mulrec thr k).
+Definition laddmul2 (thr k : nat) := mp_laddmul2 (mulrec thr k).
 
 Definition lmul_kara (thr : nat) (k : nat) : ru k -> ru k -> ru k * ru k :=
   match k return ru k -> ru k -> ru k * ru k with
-  | O => lmul_naive 0
+  | O => lmul_naive thr 0
   | S k' => lmul_kara_step k' (lmul thr k')
   end.
 
@@ -312,10 +308,10 @@ Definition add_1Z k b := let '(a, r) := add_1 k (of_Z k b) in (val k a, zb r).
 Definition subZ k b c := let '(a, r) := sub_c k (of_Z k b) (of_Z k c) in (val k a, zb r).
 Definition sub_wcZ k b c cy := let '(a, r) := sub_wc k (of_Z k b) (of_Z k c) (negb (cy =? 0)) in (val k a, zb r).
 Definition cmpZ k a b := cmp k (of_Z k a) (of_Z k b).
-Definition lmul_naiveZ k b c := let '(l, h) := lmul_naive k (of_Z k b) (of_Z k c) in (val k l, val k h).
+Definition lmul_naiveZ thr k b c := let '(l, h) := lmul_naive thr k (of_Z k b) (of_Z k c) in (val k l, val k h).
 Definition lmul_karaZ thr k b c := let '(l, h) := lmul_kara thr k (of_Z k b) (of_Z k c) in (val k l, val k h).
 Definition lmulZ thr k b c := let '(l, h) := lmul thr k (of_Z k b) (of_Z k c) in (val k l, val k h).
-Definition laddmulZ k b c d := let '((l, h), r) := laddmul k (of_Z k b) (of_Z k c) (of_Z k d) in (val k l, val k h, zb r).
-Definition laddmul2Z k b c d := let '((l, h), r) := laddmul2 k (of_Z k b) (of_Z k c) (of_Z (S k) d) in (val k l, val k h, zb r).
+Definition laddmulZ thr k b c d := let '((l, h), r) := laddmul thr k (of_Z k b) (of_Z k c) (of_Z k d) in (val k l, val k h, zb r).
+Definition laddmul2Z thr k b c d := let '((l, h), r) := laddmul2 thr k (of_Z k b) (of_Z k c) (of_Z (S k) d) in (val k l, val k h, zb r).
 Definition mulZ thr k b c := val k (mul thr k (of_Z k b) (of_Z k c)).
 Definition addmulZ thr k a b c := val k (addmul thr k (of_Z k a) (of_Z k b) (of_Z k c)).
